@@ -47,6 +47,12 @@ func TestMain(m *testing.M) {
 		if rp.Phase == "verbose_logging" {
 			glue.SetKlogVerbosity(5)
 		}
+		if rp.Phase == "template_flip" {
+			ev.RunReplay(rp, runFlip)
+		}
+		if rp.Phase == "udp_degenerate_datagrams" {
+			ev.RunReplay(rp, runUDP)
+		}
 		if rp.Phase == "tcp_retention" {
 			ev.RunReplay(rp, runTCase)
 		}
